@@ -62,7 +62,7 @@ impl SwiftField for Field77A {
     where
         Self: Sized,
     {
-        let lines: Vec<&str> = input.lines().collect();
+        let lines = super::field_utils::content_lines(input, "Field 77A")?;
         let narrative = validate_multiline_text(&lines, 20, 35, "Field 77A")?;
         Ok(Field77A { narrative })
     }
@@ -89,7 +89,7 @@ impl SwiftField for Field77B {
     where
         Self: Sized,
     {
-        let lines: Vec<&str> = input.lines().collect();
+        let lines = super::field_utils::content_lines(input, "Field 77B")?;
         let narrative = validate_multiline_text(&lines, 3, 35, "Field 77B")?;
         Ok(Field77B { narrative })
     }
